@@ -316,6 +316,8 @@ func ruleDirty(r *Report) {
 		}
 		h.Check(ok, "(*column.Txn).rangeWrite/iterate", r.P.Pos(rw.Pos()), "iterates Txn.dirty", "rangeWrite does not iterate the transaction's dirty-block set")
 	}
+	// the pooled transaction starts with an empty (zeroed) dirty set
+	checkReset(r, h)
 }
 
 // ruleEmitFields: C06.emitfields
@@ -463,6 +465,11 @@ func ruleQueryPaths(r *Report) {
 		})
 		h.Check(ok, name+"/reset", r.P.Pos(fn.Pos()), "reset on every exit", "an exit of "+name+" does not pass Txn.reset: buffers of this transaction leak into the next user of the pooled Txn")
 	}
+	checkReset(r, h)
+}
+
+// checkReset: Txn.reset really empties the pooled transaction.
+func checkReset(r *Report, h *RuleH) {
 	if reset := r.Anchor("(*column.Txn).reset"); reset != nil {
 		trunc := map[string]bool{}
 		clearDirty, release := false, false
